@@ -10,6 +10,7 @@ import (
 	"fmt"
 	"io"
 	"net"
+	"sync"
 
 	hclog "github.com/hashicorp/go-hclog"
 	"github.com/hashicorp/go-plugin/internal/grpcmux"
@@ -58,6 +59,7 @@ type GRPCServer struct {
 
 	config      GRPCServerConfig
 	server      *grpc.Server
+	brokerLock  sync.Mutex // guards broker against concurrent Stop/GracefulStop
 	broker      *GRPCBroker
 	stdioServer *grpcStdioServer
 
@@ -117,6 +119,14 @@ func (s *GRPCServer) Init() error {
 // grpc.Broker if present.
 func (s *GRPCServer) Stop() {
 	s.server.Stop()
+	s.closeBroker()
+}
+
+// closeBroker closes the broker once; Stop and GracefulStop may be called
+// concurrently (e.g. by two controller Shutdown requests).
+func (s *GRPCServer) closeBroker() {
+	s.brokerLock.Lock()
+	defer s.brokerLock.Unlock()
 
 	if s.broker != nil {
 		s.broker.Close()
@@ -128,11 +138,7 @@ func (s *GRPCServer) Stop() {
 // the underlying grpc.Broker if present.
 func (s *GRPCServer) GracefulStop() {
 	s.server.GracefulStop()
-
-	if s.broker != nil {
-		s.broker.Close()
-		s.broker = nil
-	}
+	s.closeBroker()
 }
 
 // Config is the GRPCServerConfig encoded as JSON then base64.
